@@ -107,7 +107,8 @@ def run(ctx, spec):
         per_step_fields=sorted(cfg["resync_fields"]), per_step_compared=report["resync_steps"],
         per_step_disagreements=report["resync_disagreements"],
         stats=report["stats"],
-        in_kernel_crosscheck=dict(cases=len(sample), differing=len(coq_fail)), wall_s=t.s())
+        in_kernel_crosscheck=dict(cases=len(sample), evaluated_in_kernel=getattr(coq_eval_cases, 'evaluated', 0) if sample else 0,
+                                  differing=len(coq_fail)), wall_s=t.s())
     if coq_fail:
         raise RuntimeError(f"extracted driver and vm_compute disagree on cases {coq_fail}")
     for c in cases[:2]:
